@@ -1,8 +1,8 @@
 SPECIFICATION Spec
 CONSTANTS
-  KeysTop = {"a","b"}
+  KeysTop = {"a"}
   KeysNested = {"a"}
-  Depth = 2
+  Depth = 3
   Export = FALSE
   Catalogue = "strings"
   SizeTest = "order"
